@@ -11,6 +11,8 @@
 (*   rank o w force result ranks | all o ranks                             *)
 (*   frank o worlds result ranks | accept o cond result ranks              *)
 (*   zop cond result          (the System Z operator's answer, C16)        *)
+(*   cop cond result          (the c-inference operator's answer, C17)     *)
+(*   front vectors bound      (c_inference_pareto_front, C17)              *)
 (*   save o file ok ranks aux | load file o ranks                          *)
 (*   same a b                 (two projections that must be equal, C20)    *)
 (***************************************************************************)
@@ -70,6 +72,19 @@ TZop ==
            feasA == App(Cur.cond) \cap FeasP(ZBase, P, WS, ZMode)
        IN  /\ Cur.result = SysZP(ZBase, P, Cur.cond, WS, ZMode)
            /\ (feasA # {} => Cur.result = Accepts(ZFull, Cur.cond))
+(* C17: whatever c-inference infers (satisfiable antecedent) the c-representation object accepts *)
+TCop ==
+    /\ IsEvent("cop") /\ UNCHANGED <<objs, disk>>
+    /\ (Cur.result /\ App(Cur.cond) # {}) => Accepts(objs[1].full, Cur.cond)
+(* C17: the enumerated Pareto front: exactly the Pareto-minimal impact vectors *)
+TFront ==
+    /\ IsEvent("front") /\ UNCHANGED <<objs, disk>>
+    /\ LET vs == {Cur.vectors[i] : i \in DOMAIN Cur.vectors}
+           U  == Cur.bound
+       IN  /\ Cardinality(vs) = Len(Cur.vectors)                                   \* each once
+           /\ \A v \in vs : IsCRep(E.base, v, WS) /\ SmallerCReps(E.base, v, WS) = {} \* only Pareto-minimal c-representations
+           /\ \A eta \in ParetoMin(CReps(E.base, WS, U)) :                          \* all of them (up to the bound)
+                  \E v \in vs : \A k \in DOMAIN E.base : v[k] = eta[k]
 TSave ==
     /\ IsEvent("save") /\ Cur.o \in DOMAIN objs
     /\ IF Cur.ok THEN Save(Cur.o, Cur.file) ELSE SaveFail(Cur.o, Cur.file)
@@ -77,7 +92,7 @@ TSave ==
 TLoad == IsEvent("load") /\ Load(Cur.file) /\ Cur.o = Len(objs') /\ RanksAre(Cur.o, Cur.ranks)
 TSame == IsEvent("same") /\ Cur.a = Cur.b /\ UNCHANGED <<objs, disk>>
 
-TMatch == TConstruct \/ TRank \/ TAll \/ TFRank \/ TAccept \/ TZop \/ TSave \/ TLoad \/ TSame
+TMatch == TConstruct \/ TRank \/ TAll \/ TFRank \/ TAccept \/ TZop \/ TCop \/ TFront \/ TSave \/ TLoad \/ TSame
 
 Reject ==
     /\ t > 0 /\ l <= Len(Ev) /\ ~ENABLED TMatch
